@@ -23,7 +23,7 @@ def scratch_tree(base_commit='HEAD'):
 
 
 def run(prop, tree):
-    env = dict(os.environ, VERIF_REPO=tree)
+    env = dict(os.environ, VERIF_REPO=tree, VERIF_EVIDENCE_DIR=os.path.join(ROOT, 'out', 'selftest_evidence'))
     p = subprocess.run([os.path.join(ROOT, 'bin', 'check'), prop], capture_output=True, text=True, env=env, cwd=ROOT)
     last = (p.stdout.strip().split('\n') or [''])[-1]
     return p.returncode, last
